@@ -340,11 +340,23 @@ struct SpecRt<I: HInp, P: InputPredictor<I> + 'static> {
     spec: SpecSpec,
 }
 
+/// A user-supplied predictor that maps the default input to something else (`x -> x | 1`): the library must not
+/// call it for a player from whom nothing has been received yet ("GGRS will use I::default() instead of calling the
+/// predictor"), which the two bundled predictors cannot tell
+pub struct PredictOr1;
+impl<I: HInp> InputPredictor<I> for PredictOr1 {
+    fn predict(previous: I) -> I {
+        I::from_v(previous.to_v() | 1)
+    }
+}
+
 pub fn run(sc: &Scenario, opts: &RunOpts) -> Outcome {
     match (sc.wide, sc.predictor) {
         (false, 0) => run_typed::<I1, PredictRepeatLast>(sc, opts),
+        (false, 2) => run_typed::<I1, PredictOr1>(sc, opts),
         (false, _) => run_typed::<I1, PredictDefault>(sc, opts),
         (true, 0) => run_typed::<I4, PredictRepeatLast>(sc, opts),
+        (true, 2) => run_typed::<I4, PredictOr1>(sc, opts),
         (true, _) => run_typed::<I4, PredictDefault>(sc, opts),
     }
 }
@@ -1355,7 +1367,10 @@ fn tick_peer<I: HInp, P: InputPredictor<I> + 'static>(
                                     viols.push(Viol { prop: "C03", clause: "C03.predicted_but_received".into(), msg: format!("player {h} frame {f} handed out as Predicted although frame {last} was already received"), node: node.clone(), tick });
                                 } else if disc {
                                     viols.push(Viol { prop: "C03", clause: "C03.predicted_disconnected".into(), msg: format!("player {h} frame {f} Predicted but the player is disconnected since frame {last}"), node: node.clone(), tick });
-                                } else if v != exp {
+                                } else if v != exp && !(sc.predictor == 2 && v == 0 && (0..=last).all(|g| tr(g) == Some(0))) {
+                                    // (custom predictor only: predictions are sticky - the default input handed out
+                                    // while nothing had been received stays in use for as long as every input received
+                                    // since then equals it, and is not re-derived through the predictor)
                                     viols.push(Viol { prop: "C03", clause: "C03.predicted_value".into(), msg: format!("player {h} frame {f} predicted value {v}, expected predictor(newest received input of frame {last}) = {exp}"), node: node.clone(), tick });
                                 }
                                 pe.pred_open.insert((f, h), v);
